@@ -22,7 +22,7 @@ import (
 func init() { register("C20", "exploration", runC20) }
 
 func runC20(r *ev.Run) {
-	r.SetRule("the harness connector fails CreateMessage on a schedule (generic error, an error wrapping another, the size error). Histories: APPEND of new messages (simple, generated MIME trees, text parts whose transfer encoding cannot be decoded, 8-bit) into normal mailboxes and a \\Drafts mailbox with the outcomes accept / reject / reject-for-size; re-sending a rejected message while it is in the recovery mailbox and after it was moved, copied or expunged out of it; two sessions sending the same rejected message at once; APPEND / CREATE / RENAME (both directions) / DELETE aimed at the recovery mailbox; MOVE and COPY out of it; clean restarts. Oracles after every step: OK => the message is in the target under the announced UID with its bytes; rejected (not for size) => answered NO and the recovery mailbox holds the message exactly once with its bytes; the recovery mailbox is in LIST exactly while the model says it is non-empty; commands aimed at it are refused and change nothing; moved/copied-out messages arrive with their bytes. distinct = distinct (operation, variant, outcome) triples")
+	r.SetRule("the harness connector fails CreateMessage on a schedule (generic error, an error wrapping another, the size error). Histories: APPEND of new messages (simple, generated MIME trees, text parts whose transfer encoding cannot be decoded, 8-bit) into normal mailboxes and a \\Drafts mailbox with the outcomes accept / reject / reject-for-size; re-sending a rejected message while it is in the recovery mailbox and after it was moved, copied or expunged out of it; two sessions sending the same rejected message at once; APPEND / CREATE / RENAME (both directions) / DELETE aimed at the recovery mailbox; MOVE and COPY out of it, also with a remote that de-duplicates (it answers the import with a message it already has, which may or may not be in the destination already); clean restarts. Oracles after every step: OK => the message is in the target under the announced UID with its bytes; rejected (not for size) => answered NO and the recovery mailbox holds the message exactly once with its bytes; the recovery mailbox is in LIST exactly while the model says it is non-empty; commands aimed at it are refused and change nothing; moved/copied-out messages arrive with their bytes, and RFC822.SIZE equals the length of BODY[] everywhere. distinct = distinct (operation, variant, outcome) triples")
 	r.Assume("'distinct message' = distinct content (every generated message carries its own marker in Subject, Message-Id and body; duplicates are byte-identical re-sends). For rejections because of size nothing is required and the model follows what the server did.")
 
 	hist := r.Pick(120, 1500)
@@ -49,6 +49,7 @@ type c20Case struct {
 
 	mu       sync.Mutex
 	failMode string // "", "generic", "wrapped", "size"
+	dedup    bool   // the remote de-duplicates by content while this is set
 
 	lits     map[string][]byte   // marker -> bytes
 	boxes    map[string][]string // normal mailbox -> markers (order of arrival)
@@ -100,6 +101,23 @@ func (c *c20Case) install() {
 
 		return nil
 	}
+
+	c.s.Users[0].Conn.DedupKey = func(lit []byte) string {
+		c.mu.Lock()
+		defer c.mu.Unlock()
+
+		if !c.dedup {
+			return ""
+		}
+
+		return markerOfLiteral(lit)
+	}
+}
+
+func (c *c20Case) setDedup(on bool) {
+	c.mu.Lock()
+	c.dedup = on
+	c.mu.Unlock()
 }
 
 // newMessage builds a distinct message of some kind.
@@ -181,6 +199,11 @@ func (c *c20Case) observe(after string) bool {
 				return false
 			}
 
+			if m.Size >= 0 && m.Size != int64(len(m.Body)) {
+				c.violate("C20 recovered-size-differs", fmt.Sprintf("after %s the recovered message %s has RFC822.SIZE %d, its BODY[] has %d bytes", after, m.Marker, m.Size, len(m.Body)))
+				return false
+			}
+
 			got, _ := stripGluonID(m.Body)
 			w2, _ := stripGluonID(want)
 
@@ -224,6 +247,11 @@ func (c *c20Case) observe(after string) bool {
 		}
 
 		for _, m := range v.Msgs {
+			if m.Size >= 0 && m.Size != int64(len(m.Body)) {
+				c.violate("C20 size-differs after "+opWord(after), fmt.Sprintf("after %s message %s in %q has RFC822.SIZE %d, its BODY[] has %d bytes", after, m.Marker, box, m.Size, len(m.Body)))
+				return false
+			}
+
 			g, _ := stripGluonID(m.Body)
 			w, _ := stripGluonID(c.lits[m.Marker])
 
@@ -556,6 +584,18 @@ func c20History(r *ev.Run, label string, steps int) {
 			verb := []string{"MOVE", "COPY", "UID MOVE", "EXPUNGE"}[rng.Intn(4)]
 			dst := normal[rng.Intn(2)]
 
+			// the remote may know the message already (it was re-sent and accepted meanwhile, or copied out)
+			// and answer the import with that message instead of a new one
+			dedupHit, inDst := false, false
+
+			if verb != "EXPUNGE" && rng.Intn(3) == 0 {
+				var known imap.MessageID
+
+				c.setDedup(true)
+				known, inDst = c.s.Users[0].Conn.DedupCandidate(c.lits[e.mk], []string{dst})
+				dedupHit = known != ""
+			}
+
 			var res *imapc.Result
 
 			switch verb {
@@ -577,10 +617,22 @@ func c20History(r *ev.Run, label string, steps int) {
 				res = c.c.Cmdf("%s %d %s", verb, e.seq, dst)
 			}
 
+			c.setDedup(false)
 			c.c.Cmd("UNSELECT")
 			what := fmt.Sprintf("%s of %s out of the recovery mailbox to %s", verb, e.mk, dst)
+
+			if dedupHit {
+				r.Count("takeouts_the_remote_answered_with_a_known_message", 1)
+
+				if inDst {
+					r.Count("takeouts_whose_known_message_was_in_the_destination_already", 1)
+				}
+
+				what += fmt.Sprintf(" (the remote answers with a message it already has, in the destination already: %v)", inDst)
+			}
+
 			c.logf("%s -> %s %s", what, res.Status, shorten(res.Text, 60))
-			r.Distinct(fmt.Sprintf("%s out of recovery -> %s", verb, res.Status))
+			r.Distinct(fmt.Sprintf("%s out of recovery dedup=%v indst=%v -> %s", verb, dedupHit, inDst, res.Status))
 
 			if !res.OK() {
 				c.violate("C20 cannot-take-out-of-recovery "+verb, fmt.Sprintf("%s was answered %s %s", what, res.Status, res.Text))
@@ -591,10 +643,15 @@ func c20History(r *ev.Run, label string, steps int) {
 			case "EXPUNGE":
 				delete(c.recovery, e.mk)
 			case "COPY":
-				c.boxes[dst] = append(c.boxes[dst], e.mk)
+				if !(dedupHit && inDst) {
+					c.boxes[dst] = append(c.boxes[dst], e.mk)
+				}
 			default:
 				delete(c.recovery, e.mk)
-				c.boxes[dst] = append(c.boxes[dst], e.mk)
+
+				if !(dedupHit && inDst) {
+					c.boxes[dst] = append(c.boxes[dst], e.mk)
+				}
 			}
 
 			if !c.observe(what) {
